@@ -13,6 +13,7 @@ pub mod c17;
 pub mod ingress;
 pub mod codec;
 pub mod http;
+pub mod rib;
 
 /// A pause-point handler installed per thread by a harness.
 pub type PointFn = Arc<dyn Fn(&'static str) + Send + Sync>;
